@@ -1971,6 +1971,9 @@ def _cfgs(extra=()):
 # order: small targets first. core runs jobs essentially in this order, so a budget hit truncates the large
 # targets at the end instead of starving whole targets
 TARGETS = [
+    # coverage-guided search with in-target algebraic oracles (engine/fuzz/fuzz_bn.c, ops gcd/gcd_ext/mod/mxp/recodings)
+    Target("fuzz-bn-nt", None, None, {"quick": ["fuzz256"], "thorough": ["fuzz256"]}, quick=80000, thorough=4000000,
+           fuzz="fuzz_bn_nt", job_size={"quick": 20000, "thorough": 250000}),
     Target("factor", strat_factor, run_factor, _cfgs(), quick=150, thorough=600),
     Target("genprime", strat_genprime, run_genprime, _cfgs(), quick=300, thorough=1500),
     Target("srt", strat_srt, run_srt, _cfgs(), quick=3000, thorough=15000),
